@@ -56,8 +56,20 @@ Theorem C17_term_from_fetch_range : forall (content : Merkle.hash -> bytes) F s 
   trim_term (fetched_range content x fs fe) fs (sg_start s) (sg_end s) (lenN (term_of content F s)) = Some (term_of content F s).
 Proof. exact term_from_fetch_range. Qed.
 
+(* get_one_term as a whole (inverted range: error; exact cache hit returned as it is; otherwise the first covering fetch-info
+   entry is downloaded and trimmed): whichever covering entry the fetch information lists first, and whether the chunk cache
+   answers (exactly: C12) or not, the term handed to the writer is the chunk range the segment names *)
+Theorem C17_get_one_term_exact : forall (content : Merkle.hash -> bytes) F s x cached infos, st_find F (sg_cas s) = Some x ->
+  sg_start s <= sg_end s ->
+  (cached = None \/ cached = Some (term_of content F s)) ->
+  (exists r, In r infos /\ fst r <= sg_start s /\ sg_end s <= snd r) ->
+  (forall r, In r infos -> snd r <= N.of_nat (length (ci_chunks x))) ->
+  get_one_term cached infos (fetched_range content x) (sg_start s) (sg_end s) (lenN (term_of content F s)) = Some (term_of content F s).
+Proof. exact get_one_term_exact. Qed.
+
 Print Assumptions C17_trim_to_term_exact.
 Print Assumptions C17_sequential_writer_exact.
 Print Assumptions C17_parallel_eq_sequential.
 Print Assumptions C17_completion_order_irrelevant.
 Print Assumptions C17_term_from_fetch_range.
+Print Assumptions C17_get_one_term_exact.
